@@ -193,3 +193,62 @@ def race(case, res):
         S.shutdown()
         return S.ops[:12]
     sim_case(case, res, body)
+
+
+@scenario("deadline-successor")
+def successor(case, res):
+    """'a reply that arrives after the timeout answer is discarded without any effect' - also when the caller has gone since and
+    another connection has taken its place (same transport, same numbering of its requests, its memory likely to be the old
+    caller's): the late reply must not reach the successor's request, which is still waiting for its own answer"""
+    prm = case.get("params", {})
+
+    def body(S, rng):
+        S.per_conn_ids = True
+        own = S.connect("own", rng.choice(["raw", "uds", "ws"]))
+        if own.transport == "ws":
+            S.handshake(own)
+        S.request(own, "add", {"path": "r/s", "value": 1, "timeout": 1})
+        S.request(own, "add", {"path": "r/m", "timeout": 2})
+        S.settle()
+        t = rng.choice(["raw", "uds", "ws"])
+        stale = []          # forwarded ids of requests whose caller is gone or was answered with the timeout
+        for rnd in range(prm.get("rounds", 6)):
+            c = S.connect("c%d" % rnd, t)
+            if t == "ws":
+                S.handshake(c)
+            S.settle()
+            k = rng.choice([1, 1, 2, 3])
+            ps = []
+            for i in range(k):
+                if rng.random() < 0.6:
+                    ps.append(S.request(c, "set", {"path": "r/s", "value": S.next_val(c)}))
+                else:
+                    ps.append(S.request(c, "call", {"path": "r/m", "args": [S.next_val(c)]}))
+            S.settle()
+            ps = [p for p in ps if p.state == "forwarded"]
+            # the owner now answers what it was asked by callers of EARLIER rounds: nothing of it may reach anybody
+            late = stale[:]
+            rng.shuffle(late)
+            for fid in late[:rng.choice([1, 2, 4])]:
+                S.ops.append(["late reply", fid])
+                S.send_payload(own, json.dumps({"id": fid, rng.choice(["result", "error"]): {"late": fid}}).encode())
+                S.stats["late_replies_for_gone_callers"] += 1
+            S.settle()
+            how = rng.choice(["timeout-then-leave", "leave", "reply-some-then-leave", "timeout-then-leave"])
+            if how == "reply-some-then-leave" and ps:
+                S.reply(own, ps[0], "result")
+                S.settle()
+                ps = ps[1:]
+            if how.startswith("timeout") and ps:
+                dl = max(p.deadline for p in ps if p.deadline is not None)
+                S.advance(dl - S.now + 1)
+                S.settle()
+            stale += [p.fwd_id for p in ps if p.fwd_id]
+            S.end(c, rng.choice(["eof", "rst"]))
+            S.settle()
+            S.sig("successor-round", t, how, len(ps))
+        st = S.close_all()
+        S.check_idle_baseline(st)
+        S.shutdown()
+        return S.ops[:12]
+    sim_case(case, res, body)
